@@ -33,9 +33,10 @@ func init() {
 			"(5) a finished transaction is inert (C17 rule 1); (6) a successful transactional Put/Delete has buffered exactly that operation; (7) shared with C01/C08: batch entries are stamped with the number the log assigned (a later commit is never shadowed by an older transaction's higher stamp) and an empty value is never turned into a deletion marker on the way into the buffer. " +
 			"Added after blind round 5: the retry wrapper's decision table (exhausted retries report an error). " +
 			"Added after blind round 6: the buffer-view rule of C03; the memtable's snapshot bound nextSeqNum is advanced by Put and Delete alike (cross-listed from C18: a delete-only commit must be visible to later scans). " +
-			"Added after blind round 7: every storage access of a transaction's Get/NewIterator/NewRangeIterator happens with TransactionImpl.mu held (Commit/Rollback wait for reads in flight); the scan iterator is built from every memtable and every SSTable it is given (whole-slice walks, no skipped iteration).",
+			"Added after blind round 7: every storage access of a transaction's Get/NewIterator/NewRangeIterator happens with TransactionImpl.mu held (Commit/Rollback wait for reads in flight); the scan iterator is built from every memtable and every SSTable it is given (whole-slice walks, no skipped iteration). " +
+			"Added after blind round 8: BufferIterator.Seek does not read the iterator's old position; the bounds decision table cross-listed from C05.",
 		NotDecided: "equivalence of all interleavings to a serial order (needs histories); non-transactional writers are excluded by the property itself.",
-		Rules:      []func(*Ctx, *Reporter){ruleTxAcquire, ruleTxRelease, ruleTxLockWriters, ruleTxApplyInside, ruleTxOwnWrites, ruleTxFinishOnce, ruleTxOpsBuffered, ruleStStamps, ruleEmptyNotDeleted, subRules(ruleStEffectOnce, "retry-only-on-rotating"), ruleBufferViewsFollowMap, subRules(ruleMemVisibility, "next-seq-guard"), ruleTxReadsUnderTxLock, ruleScanSourcesComplete},
+		Rules:      []func(*Ctx, *Reporter){ruleTxAcquire, ruleTxRelease, ruleTxLockWriters, ruleTxApplyInside, ruleTxOwnWrites, ruleTxFinishOnce, ruleTxOpsBuffered, ruleStStamps, ruleEmptyNotDeleted, subRules(ruleStEffectOnce, "retry-only-on-rotating"), ruleBufferViewsFollowMap, subRules(ruleMemVisibility, "next-seq-guard"), ruleTxReadsUnderTxLock, ruleScanSourcesComplete, ruleBufferSeekStateless, ruleBounds},
 	})
 }
 
@@ -733,6 +734,38 @@ func sliceLiteralElems(v ssa.Value) []ssa.Value {
 	case *ssa.Phi:
 		return nil
 	}
+	if mk, ok := v.(*ssa.MakeSlice); ok {
+		// make([]T, K) filled by s[i] = v with constant i
+		k, isK := constInt(mk.Len)
+		if !isK || k <= 0 || k > 8 || mk.Referrers() == nil {
+			return nil
+		}
+		elems := make([]ssa.Value, k)
+		for _, ref := range *mk.Referrers() {
+			ia, ok := ref.(*ssa.IndexAddr)
+			if !ok {
+				continue
+			}
+			idx, isIdx := constInt(ia.Index)
+			if !isIdx || idx < 0 || idx >= k || ia.Referrers() == nil {
+				return nil
+			}
+			for _, u := range *ia.Referrers() {
+				if st, ok := u.(*ssa.Store); ok {
+					if elems[idx] != nil {
+						return nil
+					}
+					elems[idx] = st.Val
+				}
+			}
+		}
+		for _, e := range elems {
+			if e == nil {
+				return nil
+			}
+		}
+		return elems
+	}
 	sl, ok := v.(*ssa.Slice)
 	if !ok {
 		return nil
@@ -743,7 +776,12 @@ func sliceLiteralElems(v ssa.Value) []ssa.Value {
 	}
 	m := map[int64]ssa.Value{}
 	max := int64(-1)
-	for _, ref := range *al.Referrers() {
+	refs := append([]ssa.Instruction{}, *al.Referrers()...)
+	if sl.Referrers() != nil {
+		// make([]T, K) with constant K is lowered to new [K]T + slice; its elements are assigned through the slice
+		refs = append(refs, *sl.Referrers()...)
+	}
+	for _, ref := range refs {
 		ia, ok := ref.(*ssa.IndexAddr)
 		if !ok {
 			continue
@@ -811,7 +849,35 @@ func findCallIn(v ssa.Value, f *ssa.Function, depth int) *ssa.Call {
 			return c2
 		}
 	}
+	// a small helper of the same package that builds the value (boundedBufferIterator(start, end)): look at what it
+	// returns; a call found there is re-expressed with the helper's parameters replaced by this call's arguments
+	if h := call.Call.StaticCallee(); h != nil && f != nil && h.Pkg == call.Parent().Pkg && len(h.Blocks) > 0 && depth < 3 {
+		for _, ret := range Returns(h) {
+			if len(ret.Results) == 0 {
+				continue
+			}
+			if c2 := findCallIn(ReturnValue(ret, 0), f, depth+1); c2 != nil {
+				return rebindCall(c2, h, call)
+			}
+		}
+	}
 	return nil
+}
+
+// rebindCall: inner is a call inside helper h; site is the call of h. Returns a synthetic view of inner whose arguments
+// that are parameters of h are replaced by the arguments at site (so that callers comparing arguments with their own
+// parameters keep working). Only Args are rewritten; the original instruction is not touched.
+func rebindCall(inner *ssa.Call, h *ssa.Function, site *ssa.Call) *ssa.Call {
+	cp := *inner
+	cp.Call.Args = append([]ssa.Value(nil), inner.Call.Args...)
+	for i, a := range cp.Call.Args {
+		for k, p := range h.Params {
+			if a == ssa.Value(p) && k < len(site.Call.Args) {
+				cp.Call.Args[i] = site.Call.Args[k]
+			}
+		}
+	}
+	return &cp
 }
 
 func isEmptySlice(v ssa.Value) bool {
